@@ -29,7 +29,7 @@ class SemiCylinder(RoundSolidShape):
         radius_point_1 = np.asarray(radius_point_1)
 
         diff = np.dot(axis, radius_point_1 - axis_point_1)
-        if diff > TOL:
+        if abs(diff) > TOL:
             raise CylinderCreationError(
                 "Axis and radius vectors are not perpendicular", f"Difference: {diff}, tolerance: {TOL}"
             )
